@@ -585,6 +585,19 @@ def generate(rng, tier, index):
                 {'op': 'Register', 'label': 'spl', 'otype': 'SplitKey',
                  'attrs': [A('Cryptographic Usage Mask', 12)],
                  'obj': gen.gen_object(ctx, 'SplitKey')}]
+            # id-less items after every kind of item that may leave an
+            # identifier behind for them (Locate with one match included)
+            for first in ({'op': 'Locate', 'attrs': [], 'max': 1},
+                          {'op': 'Locate', 'attrs': [A('Object Type', 2)],
+                           'max': 1},
+                          {'op': 'Get', 'uid': '@x'},
+                          {'op': 'GetAttributes', 'uid': '@x'}):
+                for nm in ('Get', 'GetAttributes', 'GetAttributeList',
+                           'Activate', 'Revoke'):
+                    second = {'op': nm}
+                    if nm == 'Revoke':
+                        second['code'] = 1
+                    probes_.append([dict(first), second])
             # key bytes are free-form: a symmetric key object may hold the
             # DER of an RSA or EC key, a private key object an EC key, and
             # the request's parameters may say RSA
@@ -843,8 +856,11 @@ def generate(rng, tier, index):
             for op in extra_setup:
                 steps.append({'actor': 0, 'ver': [1, 2], 'items': [op]})
         for op in probes_:
-            steps.append({'actor': 0, 'ver': list(ver), 'items': [op],
-                          'probe': True})
+            st = {'actor': 0, 'ver': list(ver), 'probe': True,
+                  'items': op if isinstance(op, list) else [op]}
+            if isinstance(op, list):
+                st['cont'] = 1
+            steps.append(st)
         return {'actors': [{'cn': 'owner'}], 'seed': r.randrange(1 << 30),
                 'steps': steps, 'cell': None,
                 'attr_sweep': ['crypto-parameters', otype, list(ver)]}
